@@ -234,30 +234,37 @@ def r2_r3_trxcon(L, repo, spec, us2s):
     L.ob("C04.R2", FC, "trx_data_rx_cb", "only header version 0 is accepted (octet 0 bits 7..4)", "(buf[0] >> 4) == 0",
          sorted(("" if p else "!") + t_ for t_, p in lits)[:8], ("(buf[0] >> 4) == 0", True) in lits or ("0 == (buf[0] >> 4)", True) in lits,
          tu.line(il))
-    # payload lengths: switch on read_len (after subtracting the header)
-    sw = [n for n in g.nodes if n.kind == "switch" and ctext(n.cond) == "read_len"]
-    L.require("C04.R2", FC, "trx_data_rx_cb", "payload length is classified by one switch", 1, len(sw))
-    if sw:
-        labels = {}
-        for (s_, lab) in sw[0].succ:
-            if isinstance(lab, tuple):
-                # does this case reach a `read_len -= 2`?
-                labels[lab[1]] = s_
-        subs = [n for n in g.nodes if n.kind == "stmt" and kind(n.ast) == "CompoundAssignOperator" and ctext(n.ast) == "(read_len -= 2)"]
-        # case v strips the 2 legacy octets iff the strip statement is reachable from its label
-        strip_ = {v_: any(g.reachable(node, s2) for s2 in subs) for v_, node in labels.items()}
-        want = {}
-        for bl in sp["burst"]["lengths"]:
-            want[bl] = False
-            want[bl + sp["burst"]["legacy_pad"]] = True
-        L.require("C04.R2", FC, "trx_data_rx_cb", "accepted payload lengths (burst length, with and without the 2 legacy octets -> strip 2)",
-                  want, strip_, line=sw[0].line)
-        dflt = [s_ for (s_, lab) in sw[0].succ if lab == "default"]
-        okd = bool(dflt) and not g.reachable(dflt[0], init_node)
-        L.ob("C04.R2", FC, "trx_data_rx_cb", "any other payload length is rejected", "default: return", "", okd, sw[0].line)
-        hdrsub = [n for n in g.nodes if n.kind == "stmt" and ctext(n.ast) == "(read_len -= %d)" % sp["hdr_len"]]
-        L.ob("C04.R2", FC, "trx_data_rx_cb", "header length is subtracted before the payload length is classified", "read_len -= 8 dominates the switch",
-             len(hdrsub), len(hdrsub) == 1 and g.dominates(hdrsub[0], sw[0]))
+    # payload lengths: the length classification is comparison-only code over read_len; it is folded
+    # for every datagram length 1..sizeof(buf) whatever shape it is written in (switch, if-chain, ...)
+    from cfront import CInterp, CStop
+    bufdecl0 = [n for n in walk(body) if kind(n) == "VarDecl" and n.get("name") == "buf"]
+    ext0 = array_extent(bufdecl0[0].get("type", {}).get("qualType")) if bufdecl0 else None
+    if ext0 is None:
+        raise AnalysisError("trx_data_rx_cb: receive buffer extent unknown")
+
+    def is_stop(st):
+        # the point where the burst indication is built
+        return kind(st) not in ("CompoundStmt", "IfStmt", "SwitchStmt", "DoStmt", "ForStmt", "WhileStmt") and \
+            any(x is il for x in walk(st))
+    accepted = {}
+    for Ln in range(1, ext0 + 1):
+        hooks = {"read": lambda e, env, Ln=Ln: Ln}
+        ci_ = CInterp(tu, hooks=hooks, stop=is_stop)
+        env = {"buf[0]": 0}
+        try:
+            r = ci_.run(body, env)
+            accepted[Ln] = None          # returned before building the indication
+        except CStop as stp:
+            accepted[Ln] = stp.env.get("read_len")
+    want = {}
+    for bl in sp["burst"]["lengths"]:
+        want[sp["hdr_len"] + bl] = bl
+        want[sp["hdr_len"] + bl + sp["burst"]["legacy_pad"]] = bl
+    got = {k: v for k, v in accepted.items() if v is not None}
+    L.require("C04.R2", FC, "trx_data_rx_cb",
+              "accepted datagram lengths and the burst length handed on (header + {148, 444}, with or without the 2 legacy octets which are stripped); every other length 1..%d is rejected" % ext0,
+              want, got, line=tu.line(il))
+    L.extra["c04_lengths_folded"] = ext0
     # soft-bit conversion: fold the loop body for all 256 octet values
     loops = [n for n in walk(body) if kind(n) == "ForStmt"]
     conv = {}
